@@ -183,6 +183,42 @@ def neutral_variants(text):
     return out
 
 
+def rename_private_functions(repo, files):
+    """Overlay that renames every private function / method defined in `files` (and every
+    reference to it anywhere in the package) from _name to _name_q."""
+    names = set()
+    for rel in files:
+        m = repo.by_relpath.get(rel)
+        if m is None:
+            continue
+        for f in m.all_functions:
+            n = f.name
+            if n.startswith('_') and not n.startswith('__') and f.outer is None:
+                names.add(n)
+    if not names:
+        return {}
+    # never rename a name that is also a field / keyword used as plain attribute data
+    ov = {}
+    for rel, m in repo.by_relpath.items():
+        if not any(n in m.text for n in names):
+            continue
+        tree = ast.parse(m.text)
+        changed = False
+        for n in ast.walk(tree):
+            if isinstance(n, (ast.FunctionDef, ast.AsyncFunctionDef)) and n.name in names:
+                n.name += '_q'
+                changed = True
+            elif isinstance(n, ast.Attribute) and n.attr in names:
+                n.attr += '_q'
+                changed = True
+            elif isinstance(n, ast.Name) and n.id in names:
+                n.id += '_q'
+                changed = True
+        if changed:
+            ov[rel] = ast.unparse(tree) + '\n'
+    return ov
+
+
 # ---------------------------------------------------------------------------
 # anchor mutants
 # ---------------------------------------------------------------------------
@@ -439,6 +475,9 @@ def run(prop, root=REPO_ROOT, jobs=16, baseline=None, max_mutants=160):
                 ops.setdefault(name, {})[rel] = new
     for name, ov in sorted(ops.items()):
         jobs_list.append(('neutral', name, ov))
+    rp = rename_private_functions(baseline['repo'], anchored_files)
+    if rp:
+        jobs_list.append(('neutral', 'rename-private-functions', rp))
     for (sid, ov) in seeded_variants(prop, root):
         if ov is None:
             jobs_list.append(('seeded-skip', sid, None))
@@ -449,7 +488,9 @@ def run(prop, root=REPO_ROOT, jobs=16, baseline=None, max_mutants=160):
         for (desc, new) in anchor_mutants(texts[rel], anchors[rel], rel):
             muts.append(('mutant', desc, {rel: new}))
     # deterministic thinning
-    if len(muts) > max_mutants:
+    if max_mutants <= 0:
+        muts = []
+    elif len(muts) > max_mutants:
         step = len(muts) / float(max_mutants)
         muts = [muts[int(k * step)] for k in range(max_mutants)]
     jobs_list += muts
